@@ -14,7 +14,11 @@ first = {'C01-a':'first','C02-a':'first','C03-a':'first','C04-a':'after (engine 
  'C14-c':'first (by C01; tasks.responses then added to C14)','C17-c':'first','C18-c':'first','C20-c':'first (by C01/C08; the dispatcher then added to C20)',
  'C02-c':'first (by C14; WithData then added to C02)','C06-c':'first','C10-c':'first (by C13; toJSON then added to C10)','C11-c':'first',
  'C12-c':'after (decimal reading of Content-Length pinned via strconv.Atoi contract)','C15-c':'after (Check put under contract with reflect.Type observers)',
- 'C16-c':'first','C19-c':'first (by C18; Bridge.serveInternal then added to C19)'}
+ 'C16-c':'first','C19-c':'first (by C18; Bridge.serveInternal then added to C19)',
+ 'C02-d':'after (by C07 at first; request-shaped-members-kept then added to filterBatchLocked)','C05-d':'after (send-site assertion: the synthetic reply carries the code of pctx.Err())',
+ 'C06-d':'first','C07-d':'first','C08-d':'after (by C03 census at first; reserved-before-lock-dropped then added to dispatchLocked)','C10-d':'first',
+ 'C12-d':'after (field-name matching invariant of hdr.Recv, ghosts set where the name is folded)','C13-d':'first','C14-d':'first',
+ 'C17-d':'after (assignerResult now depends on the inbound request; own-handler clause of checkAndAssignLocked)','C18-d':'first','C19-d':'first'}
 rows=[]
 for d in sorted(glob.glob('/verif/seeded/*/')):
     sid=os.path.basename(d.rstrip('/'))
